@@ -874,6 +874,9 @@ func (o *Map) UnmarshalBinary(data []byte) error {
 	strBuf := bytes.NewBuffer(nil)
 	var vi varintConv
 	vi.reader = rd
+	if *o == nil {
+		*o = Map{}
+	}
 	m := *o
 
 	for rd.Len() > 0 {
@@ -1001,7 +1004,9 @@ func (o *CompiledFunction) MarshalBinary() ([]byte, error) {
 }
 
 // UnmarshalBinary implements encoding.BinaryUnmarshaler
-func (o *CompiledFunction) UnmarshalBinary(data []byte) error {
+func (o *CompiledFunction) UnmarshalBinary(data []byte) (err error) {
+	defer recoverDecodeError(&err)
+
 	if len(data) < 2 || data[0] != binCompiledFunctionV1 {
 		return errors.New("invalid ugo.CompiledFunction data")
 	}
@@ -1013,6 +1018,10 @@ func (o *CompiledFunction) UnmarshalBinary(data []byte) error {
 
 	if size <= 0 {
 		return nil
+	}
+
+	if len(data) < 1+offset+int(size) {
+		return errors.New("invalid ugo.CompiledFunction data size")
 	}
 
 	rd := bytes.NewReader(data[1+offset : 1+offset+int(size)])
